@@ -132,7 +132,7 @@ def compile_harness(name, sanitize=False, extra=None):
     src = os.path.join(HARNESS, spec["src"])
     exe = os.path.join(BUILD, name + ("_san" if sanitize else ""))
     cc = spec.get("cc", "g++")
-    cmd = [cc] + spec.get("std", ["-std=c++20"]) + ["-O1", "-g0", f"-D{GUARD}=1", "-I" + os.path.join(REPO, "include"),
+    cmd = [cc] + spec.get("std", ["-std=c++20"]) + ["-O1", "-g0", "-w", f"-D{GUARD}=1", "-I" + os.path.join(REPO, "include"),
            "-I" + HARNESS] + spec.get("flags", []) + (extra or [])
     if sanitize:
         cmd += ["-g", "-fsanitize=address,undefined", "-fno-sanitize-recover=all"]
